@@ -656,6 +656,16 @@ pub fn suite_compress(dir: &str, seed: u64, thorough: bool, st: &mut Stats) {
                     if !rep.starts_with("OK") {
                         st.violation("C11", "the reader does not open the archive the writer produced", &compress_line(&c, &bytes));
                     }
+                    // C01 with the library writer: what it wrote is cloned back to the source (a chunk stored in a form
+                    // the reader does not take it for -- e.g. compressed to exactly its own size -- fails here)
+                    if r == 0 && !big {
+                        st.oracle_checks += 1;
+                        match crate::tamper::lib_clone(&bytes, &[]) {
+                            Ok(d) if d == c.src => {}
+                            Ok(_) => st.violation("C01", "the archive of the library writer clones to other bytes than the source", &compress_line(&c, &bytes)),
+                            Err(e) => st.violation("C01", &format!("the archive of the library writer cannot be cloned back: {}", e), &compress_line(&c, &bytes)),
+                        }
+                    }
                     match &first {
                         None => first = Some(bytes.clone()),
                         Some(f) => if *f != bytes {
